@@ -11,6 +11,7 @@ import (
 	banktypes "github.com/cosmos/cosmos-sdk/x/bank/types"
 	ammtypes "github.com/elys-network/elys/x/amm/types"
 	ctypes "github.com/elys-network/elys/x/commitment/types"
+	estypes "github.com/elys-network/elys/x/estaking/types"
 	llptypes "github.com/elys-network/elys/x/leveragelp/types"
 	mctypes "github.com/elys-network/elys/x/masterchef/types"
 	perptypes "github.com/elys-network/elys/x/perpetual/types"
@@ -217,6 +218,14 @@ func NewOpLib() *OpLib {
 	}
 	l.Add("nofeed", "nofeed", 1, func(w *World, p *BlockPlan) { p.Feed = false })
 	l.Add("nofeed_2d", "nofeed", 2, func(w *World, p *BlockPlan) { p.Feed = false; p.Dt = 2 * 86400 })
+	// ---- configuration changes permitted by validation, applied through the gov message servers
+	for _, v := range AllVariants {
+		if v == "" {
+			continue
+		}
+		v := v
+		l.Add("cfg_"+v, "config", 1, func(w *World, p *BlockPlan) { p.Gov = append(p.Gov, variantGov(w, v)) })
+	}
 	// ---- amm swaps
 	type sw struct {
 		name       string
@@ -416,13 +425,19 @@ func NewOpLib() *OpLib {
 		}
 		p.Txs = one("t1", &llptypes.MsgUpdateStopLoss{Creator: w.A("t1").Addr.String(), Position: id, Price: Dec("0.5")})
 	})
-	l.Add("llp_bot_close_all", "llp_bot", 0, func(w *World, p *BlockPlan) {
+	llpReqs := func(w *World) []*llptypes.PositionRequest {
 		reqs := []*llptypes.PositionRequest{}
 		for _, m := range w.App.LeveragelpKeeper.GetAllPositions(w.RCtx()) {
 			reqs = append(reqs, &llptypes.PositionRequest{Address: m.Address, Id: m.Id})
 		}
-		reqs = append(reqs, &llptypes.PositionRequest{Address: w.A("t3").Addr.String(), Id: 999})
-		p.Txs = one("bot", &llptypes.MsgClosePositions{Creator: w.A("bot").Addr.String(), Liquidate: reqs, StopLoss: reqs})
+		return append(reqs, &llptypes.PositionRequest{Address: w.A("t3").Addr.String(), Id: 999})
+	}
+	// bot names every stored position (healthy or not) plus a non-existent one
+	l.Add("llp_bot_close_all", "llp_bot", 0, func(w *World, p *BlockPlan) {
+		p.Txs = one("bot", &llptypes.MsgClosePositions{Creator: w.A("bot").Addr.String(), Liquidate: llpReqs(w)})
+	})
+	l.Add("llp_bot_stoploss_all", "llp_bot", 0, func(w *World, p *BlockPlan) {
+		p.Txs = one("bot", &llptypes.MsgClosePositions{Creator: w.A("bot").Addr.String(), StopLoss: llpReqs(w)})
 	})
 	l.Add("llp_claim_t1", "llp_claim", 0, func(w *World, p *BlockPlan) {
 		ids := []uint64{}
@@ -463,6 +478,10 @@ func NewOpLib() *OpLib {
 			p.Txs = []PlannedTx{{Signer: "t3", Fee: sdk.NewCoins(C(d, 1000000)), Msgs: []sdk.Msg{&banktypes.MsgSend{FromAddress: a.Addr.String(), ToAddress: w.A("bot").Addr.String(), Amount: sdk.NewCoins(C("uusdc", 1))}}}}
 		})
 	}
+	l.Add("send_elys_to_burn_addr", "burnsend", 1, func(w *World, p *BlockPlan) {
+		a := w.A("t3")
+		p.Txs = one("t3", &banktypes.MsgSend{FromAddress: a.Addr.String(), ToAddress: sdk.AccAddress(make([]byte, 20)).String(), Amount: sdk.NewCoins(C("uelys", 5000000))})
+	})
 	l.Add("donate_p1_atom", "donate", 1, func(w *World, p *BlockPlan) {
 		a := w.A("donor")
 		p.Txs = one("donor", &banktypes.MsgSend{FromAddress: a.Addr.String(), ToAddress: w.PoolAddr(1).String(), Amount: sdk.NewCoins(C("uatom", 12345))})
@@ -475,7 +494,7 @@ func NewOpLib() *OpLib {
 	for _, who := range []string{"lp1", "lp2", "t1", "t2"} {
 		who := who
 		l.Add("mc_claim_"+who, "mc_claim", 0, func(w *World, p *BlockPlan) {
-			p.Txs = one(who, &mctypes.MsgClaimRewards{Sender: w.A(who).Addr.String()})
+			p.Txs = one(who, &mctypes.MsgClaimRewards{Sender: w.A(who).Addr.String(), PoolIds: []uint64{1, 2, uint64(sstypes.PoolId)}})
 		})
 	}
 	l.Add("ext_incentive_lp1", "ext_incentive", 0, func(w *World, p *BlockPlan) {
@@ -533,6 +552,12 @@ func NewOpLib() *OpLib {
 	})
 	l.Add("unstake_elys_lp1", "unstake", 0, func(w *World, p *BlockPlan) {
 		p.Txs = one("lp1", &ctypes.MsgUnstake{Creator: w.A("lp1").Addr.String(), Asset: "uelys", Amount: I(4e8), ValidatorAddress: w.ValAddr.String()})
+	})
+	l.Add("estaking_withdraw_lp1", "estaking_withdraw", 0, func(w *World, p *BlockPlan) {
+		p.Txs = one("lp1", &estypes.MsgWithdrawAllRewards{DelegatorAddress: w.A("lp1").Addr.String()})
+	})
+	l.Add("unstake_elys_lp1_all", "unstake", 0, func(w *World, p *BlockPlan) {
+		p.Txs = one("lp1", &ctypes.MsgUnstake{Creator: w.A("lp1").Addr.String(), Asset: "uelys", Amount: I(1e9), ValidatorAddress: w.ValAddr.String()})
 	})
 	l.Add("commit_edenb_lp1", "commit", 0, func(w *World, p *BlockPlan) {
 		cm := w.App.CommitmentKeeper.GetCommitments(w.RCtx(), w.A("lp1").Addr)
